@@ -15,6 +15,7 @@ import numpy as np
 
 from qv.lib import Rec, rng_for, same_state, shadow
 
+PACKAGE_RAISE_IS_VIOLATION = True  # every shard input is built inside the statement's domain (see qv/shard.py)
 LEVEL = "exploration"
 RULE = (
     "one evaluation = one calculate() call of a shipped operation on a seeded (step size / max strain, cell, group geometry and masses, mask, generator state); "
